@@ -3,6 +3,7 @@ import Flowjaxv.Proofs.Leaves
 import Flowjaxv.Proofs.Flows
 import Flowjaxv.Proofs.JaxTransforms
 import Flowjaxv.Proofs.MergeGen
+import Flowjaxv.Proofs.MergeGenWF
 /-!
 # C03 — transformed densities obey change of variables on both evaluation paths
 
@@ -313,6 +314,32 @@ theorem gen_merge_transforms_instance :
     Inst.summary Inst.t3 = some (-11047, -30, (-30, -11086), 5, false, false) ∧
     ((Inst.t3.toD.toDistn).logProb 20 (), (Inst.t3.toD.toDistn).sample 5 (), (Inst.t3.toD.toDistn).sampleLp 5 ())
       = (-11047, -30, (-30, -11086)) := ⟨by decide, by decide⟩
+
+/-- **`cond_shape` of a nested distribution built by the (regenerated) constructors never raises**: it is the
+`merge_cond_shapes` of the innermost base's and all the bijections' condition shapes -/
+theorem gen_transformed_cond_shape_total {X C K α : Type} (d : D X C K α) (h : MergeGen.WFD d) :
+    ∃ r, D.cond_shape d = .ok r ∧ MergeGen.Merges (MergeGen.rootCond d :: d.bijs.map B.cond_shape) r :=
+  MergeGen.condShape_wfd d h
+
+/-- **`merge_transforms` returns** on every nested distribution built by the constructors (every `Transformed` node passed the
+regenerated `__check_init__`, every `Chain` inside a bijection carries the fields the regenerated `Chain.__init__` computes) whose
+bijections declare one common shape — every nesting depth.  The shape hypothesis is forced: `Transformed` never compares
+`bijection.shape` with `base_dist.shape` (real code: `Transformed(Transformed(StandardNormal((2,)), Exp((2,))), Exp(()))`
+constructs; its `log_prob` and `merge_transforms()` raise ValueError). -/
+theorem gen_merge_transforms_returns {X C K α : Type} (t : TObj X C K α) (h : MergeGen.WFD t.toD) (s : PyShape.Shape)
+    (hs : ∀ b ∈ t.toD.bijs, b.shape = s) : ∃ m, Transformed.mergeTransforms t = .ok m :=
+  MergeGen.mergeTransforms_wf t h s hs
+
+/-- non-vacuity of the hypotheses of `gen_merge_transforms_returns`: the three-level object of `gen_merge_transforms_instance` -/
+theorem gen_merge_transforms_returns_instance :
+    MergeGen.WF Inst.nestedChain.toB ∧ MergeGen.WFD Inst.t3.toD ∧ (∀ b ∈ Inst.t3.toD.bijs, b.shape = []) := by
+  have hwf : MergeGen.WF Inst.nestedChain.toB := by
+    simp [Inst.nestedChain, ChainObj.toB, MergeGen.WF, MergeGen.WFL, MergeGen.Merges, Inst.shift, Inst.neg, Inst.dbl, B.shape,
+      B.cond_shape]
+  refine ⟨hwf, ⟨⟨⟨trivial, trivial, ⟨_, rfl⟩⟩, trivial, ⟨_, rfl⟩⟩, hwf, ⟨_, rfl⟩⟩, ?_⟩
+  intro b hb
+  simp [Inst.t3, TObj.toD, D.bijs] at hb
+  rcases hb with rfl | rfl | rfl <;> rfl
 
 end MergeGen
 
